@@ -397,7 +397,7 @@ func newSyncerSM(cluster string, proxyAddr string, httpPort string) (node.StateM
 }
 
 // runE returns (case ops in kind-B syntax, observations) or an error (inconclusive).
-func runE(l *live, pre string, r *hx.Rng, withSnap bool) (string, string, error) {
+func runE(l *live, pre string, r *hx.Rng, withSnap bool, failFirstApply bool) (string, string, error) {
 	k := 1 + r.Pick(2)
 	if withSnap {
 		k = 1 // a remote snapshot replaces the whole store: one source
@@ -428,7 +428,9 @@ func runE(l *live, pre string, r *hx.Rng, withSnap bool) (string, string, error)
 		n := len(src[1])
 		handAt = r.Pick(n)
 		handTo = handAt + 1 + r.Pick(n-handAt)
-		if r.Chance(0.4) {
+		// the first transfer "does not bring the files": the receiver's apply of the snapshot FAILS, the sender must
+		// notice (waitApplySnapStatus), give up this attempt and hand the snapshot over again
+		if failFirstApply || r.Chance(0.4) {
 			px.skipCopy = 1
 		}
 	}
